@@ -2068,6 +2068,11 @@ fuzzy_info = {json.dumps(ret)};
 
         errors = []
 
+        # VV: First work out the value of every declared reference, then substitute all of them in a single pass over
+        # the original argument string (see below). Maps each spelling of a reference to the text that replaces it
+        replacements = {}
+        substituted = []
+
         for reference in self.dataReferences:
             graphLogger.debug("Reference: \"%s\"" % reference)
             graphLogger.debug('References:')
@@ -2120,50 +2125,50 @@ fuzzy_info = {json.dumps(ret)};
 
             graphLogger.debug("Reference value: %s" % reference_value)
 
-            errors = []
-
             if reference.method in [DataReference.Output, DataReference.LoopOutput]:
                 # VV: The reference value is in fact the CONTENTS of the file that the data-reference points to
                 reference_value = reference_value or ""
-                if arguments.find(reference.absoluteReference) != -1:
-                    arguments = arguments.replace(reference.absoluteReference, reference_value)
-                elif arguments.find(reference.relativeReference) != -1:
-                    arguments = arguments.replace(reference.relativeReference, reference_value)
-                else:
-                    if unused is not None:
-                        unused.append(experiment.model.errors.UnusedDataReferenceError(self.identification.identifier,
-                                                                                       reference,
-                                                "All declared references of type "
-                                                "'%s' must be used in component command line ("
-                                                "could find neither \"%s\" nor \"%s\" in \"%s\"" % (
-                                                    reference.method,
-                                                    reference.absoluteReference, reference.relativeReference,
-                                                    arguments
-                                         )))
-                    message = 'Could not locate reference %s in arguments %s' % (
-                        reference.absoluteReference, arguments
-                    )
-                    graphLogger.warning(message)
-            elif reference_value is not None and reference.method in [DataReference.Ref, DataReference.LoopRef]:
-                # VV: The reference_value is definitely a path because it's a "ref" type
-                path = reference_value
-                if arguments.find(reference.absoluteReference) == -1 and arguments.find(reference.relativeReference) == -1:
-                    if unused is not None:
-                        unused.append(experiment.model.errors.UnusedDataReferenceError(self.identification.identifier,
-                                                                                       reference,
-                                                "All declared references of type "
-                                                "'%s' must be used in component command line("
-                                                "could find neither \"%s\" nor \"%s\" in \"%s\"" % (
-                                                    reference.method,
-                                                    reference.absoluteReference, reference.relativeReference,
-                                                    arguments
-                                         )))
-                else:
-                    # Resolve the reference in the command line
-                    if arguments.find(reference.absoluteReference) == -1:
-                        arguments = arguments.replace(reference.relativeReference, path)
-                    else:
-                        arguments = arguments.replace(reference.absoluteReference, path)
+            elif reference_value is None or reference.method not in [DataReference.Ref, DataReference.LoopRef]:
+                # VV: Other kinds of references do not appear in the command line
+                continue
+
+            # VV: The relative spelling of a reference is relative to the stage of the receiver
+            spellings = [reference.absoluteReference]
+            if reference.stageIndex in [None, self.identification.stageIndex]:
+                spellings.append(reference.relativeReference)
+
+            for spelling in spellings:
+                replacements.setdefault(spelling, reference_value)
+            substituted.append((reference, spellings))
+
+        # Resolve the references in the command line.
+        # Substituting one reference after the other with str.replace() rewrites the tail of longer references
+        # (`A:ref` inside `BA:ref` or `stage0.A:ref`), makes the result depend on the order of the references and
+        # re-scans text that was just inserted. Instead match all spellings at once, longest first, and only where
+        # the text does not continue to the left with characters that can be part of a reference
+        # (same character class as FlowIR.discover_reference_strings())
+        found = set()
+
+        if replacements:
+            pattern = re.compile(r'(?<![.a-zA-Z0-9_/-])(?:%s)' % '|'.join(
+                re.escape(spelling) for spelling in sorted(replacements, key=len, reverse=True)))
+
+            def substitute(match):
+                found.add(match.group(0))
+                return replacements[match.group(0)]
+
+            arguments = pattern.sub(substitute, arguments)
+
+        for reference, spellings in substituted:
+            if found.isdisjoint(spellings):
+                if unused is not None:
+                    unused.append(experiment.model.errors.UnusedDataReferenceError(
+                        self.identification.identifier, reference,
+                        "All declared references of type '%s' must be used in component command line ("
+                        "could find neither \"%s\" nor \"%s\" in \"%s\"" % (
+                            reference.method, reference.absoluteReference, reference.relativeReference, arguments)))
+                graphLogger.warning('Could not locate reference %s in arguments %s' % (
+                    reference.absoluteReference, arguments))
 
         # Check for unresolved/undeclared references in CL - this is anything of form :ref :link
 
